@@ -74,7 +74,8 @@ BOUNDS = {
     "thorough": "65 producer configurations: all histories of <= 2 events (full menu) and <= 3 events (reduced menu; full "
                 "menu for 8 sharing-prone / one-per-class configurations); 56 configurations (< 12 vertices, one starting mesh, "
                 "plus the 3 boundary configurations) <= 4 events (mini menu); 4 sharing-prone configurations <= 4 events "
-                "(reduced menu); 8 producer pairs <= 3 events (reduced menu); rotation sweep on 12 producers; live set <= 3 meshes",
+                "(reduced menu); 8 producer pairs <= 3 events (reduced menu); rotation sweep on 12 producers; live set <= 3 meshes; "
+                "searches with > 10^4 transitions are split by their first event into independent shards",
 }
 
 MAX_LIVE = 3
@@ -232,13 +233,25 @@ def tasks(tier):
             out.append({"kind": "bfs", "start": [a, b], "menu": "reduced", "depth": 3})
         for n in DEEP[:12]:
             out.append({"kind": "rotsweep", "start": [n]})
+    # big searches are split by their first event (k-th shard takes the root events with index = k mod n); the shards
+    # are independent searches, so a state reachable through two first events is explored in both
+    split = []
+    for t in out:
+        n = {("full", 3): 7, ("reduced", 4): 6, ("mini", 4): 2}.get((t.get("menu"), t.get("depth")), 1)
+        if t["kind"] == "bfs" and len(t["start"]) == 2 and t["depth"] == 3:
+            n = 3
+        if t["kind"] == "bfs" and n > 1:
+            split += [dict(t, shard=[k, n]) for k in range(n)]
+        else:
+            split.append(t)
+    out = split
     # most expensive first so that the pool stays balanced (results are merged in this fixed order)
     cost = {"full": 10, "reduced": 4, "mini": 2}
 
     def weight(t):
         if t["kind"] != "bfs":
             return 1
-        w = cost[t["menu"]] ** t["depth"] * len(t["start"]) ** 2
+        w = cost[t["menu"]] ** t["depth"] * len(t["start"]) ** 2 / (t["shard"][1] if "shard" in t else 1)
         return w * (6 if any(n in BIG for n in t["start"]) else 1)
     out.sort(key=lambda t: -weight(t))
     return out
@@ -786,7 +799,9 @@ class Run:
                 else:
                     cands = self.attr_sharers(st, y) + list(targets)
                     labs = [link_toward(st, ("m", w), ("m", y)) for w in cands]
-                    lab = next((x for x in labs if x not in (None, "merge", "copy")), None) or next((x for x in labs if x), None)
+                    labs += [lb for a, b, lb in st.links if ("m", y) in (a, b)]          # any producer link of the changed mesh
+                    lab = next((x for x in labs if x not in (None, "merge", "copy") and not x.startswith("caller:")), None) \
+                        or next((x for x in labs if x), None)
                     self.viol("C06.transform.isolation" if kind in TRANSFORMS else f"C06.{kind}.isolation",
                               PRIMITIVE.get(kind, callee), "side_effect:other_mesh_attribute_changed",
                               (lab or "unrelated") + ":result_coordinates_are_views_of_an_attribute_of_the_source",
@@ -1168,6 +1183,9 @@ class Run:
             if state_key(st) != kk:
                 raise RuntimeError(f"replay divergence: history {hist!r} does not lead back to its recorded state")
             evs = self.events_of(st)
+            if not hist and self.task.get("shard"):
+                k, n = self.task["shard"]
+                evs = [e for x, e in enumerate(evs) if x % n == k]
             fresh = True
             for ev in evs:
                 if not fresh:
@@ -1255,7 +1273,7 @@ def finish(tier, rep: Report):
     fails = []
     want = len(tasks(tier))
     ran = rep.counters.get("bfs_tasks", 0)
-    if ran < len(PRODUCERS):
+    if ran < len(PRODUCERS) or sum(1 for f in rep.flags if f.startswith("producer:")) < len(PRODUCERS):
         return fails                                     # --only run: the guards below are about the full sweep
     if len(PRODUCERS) != 65:
         fails.append(f"producer registry has {len(PRODUCERS)} entries, pinned count is 65")
